@@ -126,6 +126,14 @@ def generate(tier, seed, work, stats):
     # P3: the calls the repository's own tests make, re-judged by the trace specification
     cases += [c for c in core.record_tests(["/repo/pyformlang"], work, {"is_equivalent_to", "minimize"}, stats) if "A" in c["recorded"][0]]
     cases += random_dfas(1500 if tier == "quick" else 30000, seed + 5)
+    # step-level conformance of the Hopcroft refinement (TraceHopcroft): spec-generated DFAs and dense random ones
+    states = core.tlc_dump("FAGen", c01.gen_cfg("dfa", 3, 4, 0, invariants=False, maxs=1, maxf=2), work, stats=stats, name="FAGen-dfa-q3-t4-steps")
+    for i, st in enumerate(c01.sample(states, 8 if tier == "quick" else 1, seed)):
+        calls = tlaparse.to_json(st["hist"])
+        if calls:
+            cases.append(dict(kind="hopcroft", calls=calls, spool="int", family="FAGen-steps"))
+    for c in random_dfas(1000 if tier == "quick" else 10000, seed + 6):
+        cases.append(dict(kind="hopcroft", calls=c["callsA"], spool="int5", family="random-dfa-steps"))
     return cases
 
 
@@ -142,6 +150,12 @@ def build_pair(case):
 
 def replay(case):
     from harness import fa, guard
+    if case.get("kind") == "hopcroft":
+        from harness import hopstep
+        ccalls, _ = fa.concrete(case["calls"], case["spool"], "ab")
+        d, _ = fa.build("dfa", ccalls)
+        r = guard.call(hopstep.record, d, timeout=5.0)
+        return [r[1]] if r[0] == "ok" and r[1] is not None else []
     a, b, evs = build_pair(case)
     A, B = fa.project(a), fa.project(b)
     meta = {"strs": dict(fa.name_meta(a)["strs"], **fa.name_meta(b)["strs"]),
@@ -172,6 +186,8 @@ def owner(ev, clause):
 
 def features(ev, clause):
     from harness import fa
+    if ev.get("op") == "hopcroft_steps":
+        return {}
     meta = ev.get("meta", {})
     f = {"subset_name_collision": fa.subset_name_collision(meta.get("strsA", {})) or
          fa.subset_name_collision(meta.get("strsB", {}))}
